@@ -106,7 +106,7 @@ func genC11(r *sim.Rand, tier string) *sim.Program {
 			p.Add("sumapp")
 		case 5, 6:
 			nb := r.Near(600, 0, 1, 31, 32, 33, 63, 64, 65, 127, 128, 129, 160, 161, 255, 256)
-			b := r.Bytes((nb + 7) / 8)
+			b := r.Bytes((nb+7)/8 + r.PickInt(0, 0, 1, 4, 17)) // the buffer may be longer than the bits it is asked to absorb
 			p.Add("finish", nb).WithB(b)
 		default:
 			p.Add("reset")
@@ -139,35 +139,39 @@ func execC11(t *testing.T, p *sim.Program, c *sim.Ctx) {
 		c.Nontriv = true
 	}
 	// cipher object
+	// The objects are constructed on first use, in the order in which the operations need them: which constructor is
+	// the FIRST one of the process (lazily built package tables) is part of the history when this run is the first of
+	// its worker process - as it always is on replay.
 	var st gcipher.SeekableStream
 	var err error
 	ks := &c11KS{}
 	switch ck {
 	case 0:
 		ks.key, ks.iv = key32[:16], iv23[:16]
-		if bucket < 0 {
-			st, err = zuc.NewCipher(ks.key, ks.iv)
-		} else {
-			st, err = zuc.NewCipherWithBucketSize(ks.key, ks.iv, bucket)
-		}
 	case 1:
 		ks.key, ks.iv = key32, iv23
-		if bucket < 0 {
-			st, err = zuc.NewCipher(ks.key, ks.iv)
-		} else {
-			st, err = zuc.NewCipherWithBucketSize(ks.key, ks.iv, bucket)
-		}
 	default:
 		ks.key, ks.iv = key32[:16], zucm.EEAIV(count, bearer, dir)
-		if bucket < 0 {
+	}
+	cipherObj := func() gcipher.SeekableStream {
+		if st != nil {
+			return st
+		}
+		switch {
+		case ck <= 1 && bucket < 0:
+			st, err = zuc.NewCipher(ks.key, ks.iv)
+		case ck <= 1:
+			st, err = zuc.NewCipherWithBucketSize(ks.key, ks.iv, bucket)
+		case bucket < 0:
 			st, err = zuc.NewEEACipher(ks.key, count, bearer, dir)
-		} else {
+		default:
 			st, err = zuc.NewEEACipherWithBucketSize(ks.key, count, bearer, dir, bucket)
 		}
-	}
-	if err != nil {
-		c.Fail("setup", -1, "setup", "cipher constructor: %v", err)
-		return
+		if err != nil {
+			c.Fail("setup", -1, "setup", "cipher constructor: %v", err)
+			return nil
+		}
+		return st
 	}
 	// mac object
 	var mac zuc.EIA
@@ -176,18 +180,29 @@ func execC11(t *testing.T, p *sim.Program, c *sim.Ctx) {
 	switch mk {
 	case 0:
 		macKey, macIV = key32[:16], iv23[:16]
-		mac, err = zuc.NewHash(macKey, macIV)
 	case 1:
 		macKey, macIV = key32[:16], zucm.EIAIV(count, bearer, dir)
-		mac, err = zuc.NewEIAHash(macKey, count, bearer, dir)
 	default:
 		tagSize = []int{4, 8, 16}[mk-2]
 		macKey, macIV = key32, iv23
-		mac, err = zuc.NewHash256(macKey, macIV, tagSize)
 	}
-	if err != nil {
-		c.Fail("setup", -1, "setup", "mac constructor: %v", err)
-		return
+	macObj := func() zuc.EIA {
+		if mac != nil {
+			return mac
+		}
+		switch mk {
+		case 0:
+			mac, err = zuc.NewHash(macKey, macIV)
+		case 1:
+			mac, err = zuc.NewEIAHash(macKey, count, bearer, dir)
+		default:
+			mac, err = zuc.NewHash256(macKey, macIV, tagSize)
+		}
+		if err != nil {
+			c.Fail("setup", -1, "setup", "mac constructor: %v", err)
+			return nil
+		}
+		return mac
 	}
 	bclass := "d"
 	if bucket >= 0 {
@@ -230,6 +245,13 @@ func execC11(t *testing.T, p *sim.Program, c *sim.Ctx) {
 			return
 		}
 		c.OpsDone++
+		if op.K == "xor" || op.K == "xorat" {
+			if cipherObj() == nil {
+				return
+			}
+		} else if macObj() == nil {
+			return
+		}
 		switch op.K {
 		case "xor", "xorat":
 			n, knob, pat := op.Int(0), op.Int(1), byte(op.Int(2))
@@ -300,9 +322,9 @@ func execC11(t *testing.T, p *sim.Program, c *sim.Ctx) {
 				dst = cn.Buf
 			}
 			if op.K == "xorat" {
-				st.XORKeyStreamAt(dst, src, uint64(off))
+				cipherObj().XORKeyStreamAt(dst, src, uint64(off))
 			} else {
-				st.XORKeyStream(dst, src)
+				cipherObj().XORKeyStream(dst, src)
 			}
 			c.Out(op.K, dst[:n])
 			if !bytes.Equal(dst[:n], want) {
@@ -331,17 +353,17 @@ func execC11(t *testing.T, p *sim.Program, c *sim.Ctx) {
 		case "write":
 			b := op.Bytes(0)
 			c.Abs("w", sim.LenClass(len(b), 16), len(b)%4, len(streamed)%16, len(streamed) >= 16)
-			n, err := mac.Write(b)
+			n, err := macObj().Write(b)
 			if n != len(b) || err != nil {
 				c.Fail("write-result", i, op.K, "Write returned %d,%v", n, err)
 			}
 			streamed = append(streamed, b...)
 		case "sum":
 			c.Abs("s", (len(streamed)*8)%128/32, len(streamed) >= 16)
-			checkMAC(i, op.K, streamed, len(streamed)*8, mac.Sum(nil))
+			checkMAC(i, op.K, streamed, len(streamed)*8, macObj().Sum(nil))
 		case "sumapp":
 			c.Abs("sa", (len(streamed)*8)%128/32)
-			out := mac.Sum([]byte{1, 2})
+			out := macObj().Sum([]byte{1, 2})
 			if len(out) < 2 || out[0] != 1 || out[1] != 2 {
 				c.Fail("sum-prefix", i, op.K, "Sum did not keep the prefix")
 				break
@@ -361,9 +383,12 @@ func execC11(t *testing.T, p *sim.Program, c *sim.Ctx) {
 			if total%128 > 32 {
 				c.Hit("probe:mac-tail>32bits")
 			}
-			msg := append(append([]byte{}, streamed...), b...)
+			msg := append(append([]byte{}, streamed...), b[:(nb+7)/8]...)
+			if len(b) > (nb+7)/8 {
+				c.Hit("probe:finish-buffer-longer-than-nbits")
+			}
 			arg := append([]byte{}, b...)
-			got := mac.Finish(arg, nb)
+			got := macObj().Finish(arg, nb)
 			if !bytes.Equal(arg, b) {
 				c.Fail("message-modified", i, op.K, "Finish modified its argument")
 			}
@@ -374,11 +399,11 @@ func execC11(t *testing.T, p *sim.Program, c *sim.Ctx) {
 			if len(streamed) > 0 {
 				c.Hit("fault:abandoned-message")
 			}
-			mac.Reset()
+			macObj().Reset()
 			streamed = streamed[:0]
 		}
 	}
-	if !c.Failed() {
-		checkMAC(len(p.Ops)-1, "final", streamed, len(streamed)*8, mac.Sum(nil))
+	if !c.Failed() && macObj() != nil {
+		checkMAC(len(p.Ops)-1, "final", streamed, len(streamed)*8, macObj().Sum(nil))
 	}
 }
